@@ -53,6 +53,9 @@ def generate(seed, tier):
     if rng.random() < 0.6:
         mode = c08.gen_mode(rng)
     path = rng.choice(["api", "api", "cli"])
+    if fmt == "lopar" and path == "api" and rng.random() < 0.6:
+        for s in tb:
+            s["root"][0] = rng.choice(["VROOT", "TOP", "FRAG", "ROOT"])   # several start symbols
     opts = {}
     if fmt in ("pmcfg", "rcg") and rng.random() < 0.3:
         opts["lex_in_grammar"] = True
